@@ -85,12 +85,15 @@ def case_signature(prop, c):
 def match_finding(prop, c, findings):
     """Returns the id of the known finding this failing case is an instance of, or None.
     A finding matches only through its narrow signature: all of its 'tags_all' are among the case's
-    tags and none of 'tags_none' is."""
+    tags, at least one of 'tags_any' (when given) is, and none of 'tags_none' is."""
     tags = set(c.get("tags") or [])
     for f in findings:
         sig = f.get("signature") or {}
         need = set(sig.get("tags_all") or [])
         if not need:
+            continue
+        anyof = set(sig.get("tags_any") or [])
+        if anyof and not (anyof & tags):
             continue
         if need <= tags and not (set(sig.get("tags_none") or []) & tags):
             if sig.get("crashed") is not None and bool(c.get("crashed")) != sig["crashed"]:
